@@ -39,6 +39,7 @@ def check(c: Check):
     clause_j(c)
     from .common import sweep_records
     sweep_records(c, 'C03-rec', ['exactly_lib.test_case'], floor=10)
+    clause_k(c)
 
 
 # ---------------------------------------------------------------- a
@@ -878,3 +879,30 @@ def clause_j(c: Check):
              and util.root_sym(calls[pi[0]].data['args'][0]) is util.root_sym(calls[ri[0]].data['args'][0])
     c.expect(ok, 'C03-j', 'act-source/remainder-checked-after-parse',
              'the command-line actor does not check the rest of the act source after parsing the program', apply_.loc())
+
+
+# ---------------------------------------------------------------- k
+def clause_k(c: Check):
+    """validation has two rounds (before and after the sandbox exists) over the SAME validator objects, which live
+    from parsing to execution: a collection of validators / parts that an object keeps and traverses in its methods is
+    not a one-shot iterator (a generator expression, map, filter ...) - the first round would use it up and the second
+    round would validate nothing, silently"""
+    from .C14 import _one_shot_stores
+    ix = c.ix
+    n_mod = 0
+    found = 0
+    for name in ix.all_module_names():
+        if not any(name.startswith(p) for p in ('exactly_lib.impls.', 'exactly_lib.type_val_deps.', 'exactly_lib.test_case.',
+                                                'exactly_lib.symbol.')):
+            continue
+        m = ix.module(name)
+        n_mod += 1
+        for f, x, what in _one_shot_stores(ix, m):
+            found += 1
+            c.bad('C03-k', 'one-shot-iterator-kept/%s/%s' % (f.key if f else name, unparse(x.targets[0])),
+                  '%s is assigned %s: it can be traversed once, but the object is used in both validation rounds (and at '
+                  'execution) - the second traversal finds nothing, so what it should have validated is not validated' % (
+                      unparse(x.targets[0]), what), '%s:%d' % (m.relpath, x.lineno))
+    c.floor('C03-k', 'modules scanned for one-shot iterators kept by validators', n_mod, 500)
+    if not found:
+        c.ok('C03-k', 'no-one-shot-iterator-kept', detail='%d modules' % n_mod)
